@@ -4,6 +4,7 @@ import Az65.Drv.Intern
 import Az65.Drv.Lex
 import Az65.Drv.Asm
 import Az65.Drv.Spec
+import Az65.Drv.Abs
 /-
 `azmodel`: line-protocol driver.  Reads `id \t mode \t args…` lines on stdin, prints
 `id \t <model/spec columns>` per line.  Imports only Model/Spec/Drv files (no Mathlib), so it
@@ -19,6 +20,7 @@ def dispatch (mode : String) (args : List String) : String :=
   | "lex" => runLex args
   | "asm" => runAsm args
   | "spec" => runSpec args
+  | "abs" => runAbs args
   | _ => "BADMODE"
 
 partial def loop (h : IO.FS.Stream) (out : IO.FS.Stream) : IO Unit := do
